@@ -85,6 +85,7 @@ class Limiter:
                 raise M.Unsupported("%s has no field `%s` any more: the credit lemma must be re-derived" % (self.struct, need))
         self.f_allow = mir.find("allow", self_ty=self.struct)
         self.f_new = mir.find("new", self_ty=self.struct)
+        self.f_reset = mir.find("reset", self_ty=self.struct) if which == "pos" else None
 
     def new_state(self, ctx, rate, t0):
         ctx.now_value = t0
@@ -109,6 +110,11 @@ class Limiter:
         oid = ctx.alloc(st)
         r = ctx.call(self.f_allow, [Ref(oid, ()), t])
         return r, ctx.heap[oid]
+
+    def reset(self, ctx, st, t):
+        oid = ctx.alloc(st)
+        ctx.call(self.f_reset, [Ref(oid, ()), t])
+        return ctx.heap[oid]
 
 
 def concrete_allow(lim, rate, cap, prev_off, times):
@@ -141,8 +147,11 @@ def native_code(lim, cases, law=None):
             L.append("            println!(\"RESULT %d {} {} {} {}\", j, a, l.capacity, (l.prev - base).as_nanos()); }" % i)
         else:
             L.append("        { let mut l = AtomicPosition::new(); l.start = base; *l.capacity.get_mut() = %d; *l.prev.get_mut() = %d;" % (cap, prev_off))
-            L.append("          let ts: [u64; %d] = [%s];" % (len(times), ", ".join(map(str, times))))
-            L.append("          let mut n = 0u64; for (j, t) in ts.iter().enumerate() { let a = l.allow(base + Duration::from_nanos(*t)); if a { n += 1; }")
+            # a reset is encoded as (t | 1<<63)
+            enc = [((1 << 63) | t[1]) if isinstance(t, (list, tuple)) else t for t in times]
+            L.append("          let ts: [u64; %d] = [%s];" % (len(enc), ", ".join(map(str, enc))))
+            L.append("          let mut n = 0u64; for (j, t) in ts.iter().enumerate() { let rs = *t >> 63 == 1; let tt = *t & !(1u64 << 63);")
+            L.append("            let a = if rs { l.reset(base + Duration::from_nanos(tt)); false } else { l.allow(base + Duration::from_nanos(tt)) }; if a { n += 1; }")
             L.append("            println!(\"RESULT %d {} {} {} {}\", j, a, *l.capacity.get_mut(), *l.prev.get_mut()); }" % i)
         L.append("          println!(\"ADMITTED %d {}\", n); }" % i)
     L += ["    }", "}"]
@@ -283,6 +292,24 @@ def inductive(lim, rate, timeout):
         rec["kind"] = "lemma:" + nm
         rec["rate"] = rate
         out.append(rec)
+    if lim.f_reset is not None:
+        ctx_r = Ctx(lim.mir)
+        st_r, cap_r, prev_r = sym_state(lim, ctx_r, rate, cap0)
+        prev_abs_r = lim.prev_abs(st_r)
+        ctx_r.assert_(cmp("<=", prev_abs_r, num(TMAX)))
+        t_r = ctx_r.fresh("t", lo=0, hi=TMAX)
+        st_r2 = lim.reset(ctx_r, st_r, t_r)
+        cap_r2 = lim.fld(st_r2, "capacity")
+        prev_abs_r2 = lim.prev_abs(st_r2)
+        phi_r = add(mul(num(I), cap_r), sub(t_r, prev_abs_r))
+        phi_r2 = add(mul(num(I), cap_r2), sub(t_r, prev_abs_r2))
+        ge_r = cmp(">=", t_r, prev_abs_r)
+        goal = band(ge_r, bor(cmp(">", phi_r2, phi_r), cmp(">", cap_r2, num(cap0)), cmp(">", prev_abs_r2, t_r)))
+        rec = q("%s lemma reset-adds-no-credit" % tag, ctx_r, goal, "reset(now) from any invariant state with now >= prev", timeout,
+                values=[x.s for x in (cap_r, prev_r, t_r) if x.c is None])
+        rec["kind"] = "lemma:reset"
+        rec["rate"] = rate
+        out.append(rec)
     # panic obligations
     pans = ctx.panics[npan0:]
     if pans:
@@ -313,6 +340,8 @@ def staleness(lim, rate, cap0, timeout):
             "2 calls from any invariant state, t2-t1 >= 1/R", timeout, values=[x.s for x in (cap, prev, t1, t2)])
     rec["kind"] = "staleness"
     rec["rate"] = rate
+    rec["tsyms"] = [t1.s, t2.s]
+    rec["capsym"], rec["prevsym"], rec["cap0"] = cap.s, prev.s, cap0
     out.append(rec)
     # first request after new()
     ctx = Ctx(lim.mir)
@@ -404,7 +433,7 @@ def replay_trace(root, lim, tr):
         return None, "native test did not run: " + out[-600:]
     flags = [a for a, _, _ in res[0]]
     R = rate_of(lim, tr["rate"])
-    adm_times = [t for t, a in zip(tr["times"], flags) if a]
+    adm_times = [t for t, a in zip(tr["times"], flags) if a and not isinstance(t, (list, tuple))]
     # window law on every pair (first, last) of admitted calls
     worst = None
     for i in range(len(adm_times)):
@@ -416,6 +445,17 @@ def replay_trace(root, lim, tr):
                 break
         if worst:
             break
+    if worst is None:
+        # staleness law: a request at least one period after the last painted frame must be painted
+        last = None
+        for t, a in zip(tr["times"], flags):
+            if isinstance(t, (list, tuple)):
+                continue
+            if a:
+                last = t
+            elif last is not None and (t - last) * R >= NS:
+                worst = (-1, t - last)
+                break
     return worst, "admitted %d of %d calls" % (len(adm_times), len(flags))
 
 
@@ -439,7 +479,7 @@ def replay(path):
     worst, info = replay_trace(root, lim, d["trace"])
     say(info)
     if worst:
-        say("window law violated natively: %d frames within %d ns" % worst)
+        say("law violated natively: %s" % ("request %d ns after the last painted frame refused" % worst[1] if worst[0] < 0 else "%d frames within %d ns" % worst))
         return 1
     say("window law holds on this trace")
     return 0
@@ -534,7 +574,7 @@ def run(tier, logdir):
         flush()
         # a failed burst lemma needs a concrete window: take it from the direct unrolling of the same limiter
         for lim in lims:
-            burst_fail = [r for r in queries if r.get("verdict") == "FAIL" and r["name"].startswith(lim.which) and r.get("kind", "").startswith(("lemma:", "cap0"))]
+            burst_fail = [r for r in queries if r.get("verdict") == "FAIL" and r["name"].startswith(lim.which) and r.get("kind", "").startswith(("lemma:", "cap0")) and r.get("kind") != "lemma:reset"]
             have = [r for r in queries if r.get("verdict") == "FAIL" and r["name"].startswith(lim.which) and r.get("kind") == "unroll"]
             if burst_fail and not have:
                 r0 = burst_fail[0]
@@ -550,14 +590,20 @@ def run(tier, logdir):
             lim = lims[0] if rec["name"].startswith("draw") else lims[1]
             kind = rec.get("kind", "")
             rec["known"] = None
-            cls = "interval" if kind == "interval" else "burst"
+            cls = "interval" if kind == "interval" else ("reset" if kind == "lemma:reset" else ("stale" if kind in ("staleness", "first") else "burst"))
             key = (lim.which, cls)
             if key in done:
                 rec["replayed"], rec["replay_path"] = done[key]
                 rec["why"] = (rec.get("why") or "") + " | same failure class as the replayed trace %s" % rec["replay_path"]
                 continue
             tr = None
-            if kind == "unroll":
+            if kind == "lemma:reset":
+                t0 = 10 ** 9
+                tr = {"limiter": lim.which, "rate": rec["rate"], "capacity": lim.B, "prev_off": 0,
+                      "times": [t0] * (lim.B + 1) + [["R", t0]] + [t0] * (lim.B + 1)}
+            elif kind == "staleness" and rec.get("model"):
+                tr = trace_from_model(lim, rec)
+            elif kind == "unroll":
                 tr = trace_from_model(lim, rec)
             elif kind == "interval":
                 tr = sustained_trace(lim, rec["rate"], rec["I"], lim.B)
@@ -568,8 +614,11 @@ def run(tier, logdir):
             if worst:
                 rec["replayed"] = True
                 rec["replay_path"] = write_replay("C05", rec["name"], tr, "native: %s; %d frames within %d ns" % (info, worst[0], worst[1]))
-                rec["why"] = (rec.get("why") or "") + " | native replay: %d frames in %d ns (law allows %.2f)" % (
-                    worst[0], worst[1], lim.B + 1 + rate_of(lim, rec["rate"]) * worst[1] / NS)
+                if worst[0] < 0:
+                    rec["why"] = (rec.get("why") or "") + " | native replay: a request %d ns after the last painted frame was refused (period %.0f ns)" % (worst[1], NS / rate_of(lim, rec["rate"]))
+                else:
+                    rec["why"] = (rec.get("why") or "") + " | native replay: %d frames in %d ns (law allows %.2f)" % (
+                        worst[0], worst[1], lim.B + 1 + rate_of(lim, rec["rate"]) * worst[1] / NS)
                 done[key] = (True, rec["replay_path"])
             else:
                 rec["replayed"] = False
